@@ -70,6 +70,7 @@ struct CompilationScope {
     prev_ins: EmittedInstruction, // instruction before the last
     loop_stack: Vec<LoopContext>, // stack of 'loop' instructions
     scope_depth: usize,           // depth within the current scope
+    is_filter: bool,              // scope of a filter statement, not of a function
 }
 
 pub struct Compiler {
@@ -373,7 +374,7 @@ impl Compiler {
                 }
             }
             Statement::Return(stmt) => {
-                if self.scope_index == 0 {
+                if self.scope_index == 0 || self.scopes[self.scope_index].is_filter {
                     return Err(CompileError::new(
                         "return statement outside of function",
                         stmt.token.line,
@@ -1216,6 +1217,7 @@ impl Compiler {
     /// the bytecode for the filter statement is captured and stored separately.
     fn compile_filter_statement(&mut self, expr: FilterStmt) -> Result<(), CompileError> {
         self.enter_scope();
+        self.scopes[self.scope_index].is_filter = true;
 
         // If there is no filter pattern, and if it is not an 'end' pattern,
         // then the control flow executes the action statement unconditionally.
